@@ -58,50 +58,61 @@ class C20(Prop):
     search_n = 1500
     design_ref = "5/C20"
     technique = ("Lean 4 proof (invariant + per-segment oracle clauses, induction over histories and over the nesting fuel, all master "
-                 "policies as oracle functions) + translator (clang AST -> regenerated guards, statement-order shapes, inventory of "
-                 "every uid/euid write in the driver, bridged by Lean lemmas) + model/implementation correspondence on the real driver")
+                 "policies as oracle functions) + translator (clang AST -> regenerated guards, DECISION TREES obtained by symbolic "
+                 "execution of the C functions, inventory of every uid/euid write in the driver; bridged by Lean lemmas) + "
+                 "model/implementation correspondence on the real driver")
     level_text = ("Lean 4 theorems about an executable model of give_uid_to_object, the euid tests of load_object/clone_object "
-                  "(master exemption, none for the simul_efun object), f_seteuid, f_export_uid, f_getuid/f_geteuid, f_bind (master "
-                  "valid_bind), reload_object and set_master (first load with/without get_root_uid()/get_bb_uid(), reload with a "
-                  "changed get_root_uid() answer): for every history of load/clone/seteuid/export_uid/destruct/reload_object/"
-                  "function-pointer evaluation/bind() by any objects incl. the master and the simul_efun object (also from inside "
-                  "create() of objects under construction, also of virtual objects made by master::compile_object, also with a "
-                  "master whose creator_file calls back into itself and drops its euid mid-creation) and every master policy the "
-                  "specification oracle judgeEv (8 clauses) accepts the model's event trace; the model is tied to the source by 29 "
-                  "regenerated bridging lemmas: path conditions of the euid tests, MASTER_APPROVED semantics, interleaved statement "
-                  "order of f_seteuid/f_export_uid/f_bind/set_master/reload_object/load_object/clone_object/give_uid_to_object, and an "
-                  "inventory of EVERY write to object_t.uid/euid in src/ and lib/ with a Lean-checked table that each falls under an "
-                  "enumerated rule and is dominated by the master apply it needs; and by running the real driver (ASan+UBSan) with a "
-                  "policy-switchable logging master (8 variants) and the model on the same generated histories; the same oracle "
-                  "judges every implementation trace")
-    level_note = ("trusted: Lean kernel; extract.py and props/c20_extract.py (clang-14 AST translator, source text scan); the "
-                  "correspondence harness (differential, only the generated histories); master applies are oracle functions; a "
-                  "master calling back into ANOTHER creating object during creator_file, call_out/heart_beat/preload/connect "
-                  "contexts, shadows and the uid AVL tree are outside the model")
-    rule = ("cases = corpus + boundary list + seeded random histories of load (also through call_other / tell_room on a file name)/clone/seteuid(string|int)/"
-            "export_uid (also onto itself / onto missing objects)/destruct (also of the master = master reload, also after "
-            "get_root_uid()/get_bb_uid() changed their answers; of the simul_efun object)/reload_object, directly, from inside create() "
-            "of objects under construction (acyclic scripts, nesting up to 8), through function pointers evaluated by other objects, "
-            "through efun pointers re-bound with bind() (valid_bind verdicts), and on virtual paths answered by "
-            "master::compile_object, performed by the master, the simul_efun object and objects under five directories whose "
-            "creator_file answer (own name, other user's name, backbone uid, root uid, NONAME, empty string, int, array, 0, "
-            "runtime error, each optionally after the master dropped its own euid inside the apply) and valid_seteuid / valid_bind "
-            "verdicts (1, 0, other ints, string, array, 0, runtime error; per object and uid) are switched during the case; one "
-            "case in four under another configuration (master without get_root_uid / get_bb_uid / valid_bind, simul_efun object as "
-            "actor); a case is non-trivial when its trace has >= 2 lines; distinct = distinct canonical implementation trace")
+                  "(master exemption, none for the simul_efun object), inherit-triggered nested loads, master valid_object, f_seteuid, "
+                  "f_export_uid, f_getuid/f_geteuid (objects and functions), f_bind (master valid_bind), reload_object and set_master "
+                  "(first load with/without get_root_uid()/get_bb_uid(), reload with a changed get_root_uid() answer): for every "
+                  "history of load/clone/seteuid/export_uid/destruct/reload_object/function-pointer evaluation/bind() by any objects "
+                  "incl. the master and the simul_efun object (also from inside create() of objects under construction, also of "
+                  "virtual objects made by master::compile_object, also with a master whose creator_file calls back into itself and "
+                  "drops its euid mid-creation) and every master policy the specification oracle judgeEv (10 clauses: known, euid, "
+                  "uid, creation, noeuid, export, asked, bind, fp, vo) accepts the model's event trace (model_satisfies_spec); the "
+                  "model is tied to the source by 34 regenerated bridging lemmas: path conditions of the euid tests, decision trees "
+                  "of give_uid_to_object / f_seteuid / f_export_uid / reload_object / set_master / f_bind / load_virtual_object "
+                  "obtained by symbolic execution of their clang AST and proved equal to the model (tie_giveuid_semantics: for every "
+                  "configuration, creator and creator_file answer), dominance theorems (every uid/euid write on every path is "
+                  "preceded by the master apply and verdict it needs), an inventory of EVERY write to object_t.uid/euid in src/ and "
+                  "lib/, uid records never renamed after the first master load; and by running the real driver (ASan+UBSan) with a "
+                  "policy-switchable logging master (8 variants) and the model on the same generated histories, reaching object "
+                  "creation through load_object, clone_object, call_other / tell_room / filter on a file name, bound efun pointers, "
+                  "call_out, heart_beat, preload_objects(), mudlib_connect() and inherit; the same oracle judges every "
+                  "implementation trace")
+    level_note = ("trusted: Lean kernel; extract.py and props/c20_extract.py (clang-14 AST translator incl. the symbolic executor, "
+                  "source text scan); the correspondence harness (differential, only the generated histories); master applies are "
+                  "oracle functions; a master calling back into ANOTHER creating object during creator_file, shadows and the uid "
+                  "AVL tree are outside the model; the loading efuns other than load_object/clone_object and the driver-started "
+                  "contexts are compared with (not separately modelled from) the plain ops")
+    rule = ("cases = corpus + boundary list + seeded random histories of load (also through call_other / tell_room / filter on a file "
+            "name, preload_objects(), an inheriting blueprint)/clone (also through mudlib_connect())/seteuid(string|int)/"
+            "export_uid (also onto itself / onto missing objects, chains)/destruct (also of the master = master reload, also after "
+            "get_root_uid()/get_bb_uid() changed their answers; of the simul_efun object)/reload_object, directly, from call_out and "
+            "heart_beat, from inside create() of objects under construction (acyclic scripts, nesting up to 8), through function "
+            "pointers evaluated by other objects, through efun pointers re-bound with bind() (valid_bind verdicts), and on virtual "
+            "paths answered by master::compile_object, performed by the master, the simul_efun object and objects under five "
+            "directories (loaders whose euid differs from their uid included) whose creator_file answer (own name, other user's "
+            "name, backbone uid, root uid, NONAME, empty string, names differing in case, int, array, 0, runtime error, each "
+            "optionally after the master dropped its own euid inside the apply), valid_object, valid_seteuid and valid_bind verdicts "
+            "(1, 0, other ints, string, array, 0, runtime error) are switched during the case; one case in four under another "
+            "configuration (master without get_root_uid / get_bb_uid / valid_bind, simul_efun object as actor); a case is "
+            "non-trivial when its trace has >= 2 lines; distinct = distinct canonical implementation trace")
     not_covered = ["the branch of clone_object that re-uses an unreferenced virtual object instead of asking compile_object again (ob->ref == 1) cannot occur with registered objects and is not modelled",
-                   "loads started by the driver itself without a current_object (preload, connect(); the translator tie `tie_load_no_current` covers the guard) and creation from "
-                   "call_out/heart_beat contexts are not exercised (the euid tests read only current_object: regenerated guards mention nothing else)",
                    "a master apply that calls back into a creating object OTHER than the master (e.g. makes a wizard's object seteuid(0) during creator_file) is not modelled: "
                    "the object would still be created (give_uid_to_object does not re-test); only the master's callback into itself is run and proved",
                    "a master without get_root_uid() is not reloaded in the harness (its uids would come from an unlogged creator_file answer of the old master); "
                    "reload_object(master) and destruct of the simul_efun object are refused by harness / driver and only that refusal is compared",
                    "bind() is exercised with efun pointers (find_object(path, 1) / clone_object) only; simul_efun pointers and the "
-                   "FP_NOT_BINDABLE refusals are pinned by tie_bind_shape but not run; f_bind copies the reference count of the old pointer (leak, not a uid matter)",
+                   "FP_NOT_BINDABLE refusals are in tie_bind_tree but not run; f_bind copies the reference count of the old pointer (leak, not a uid matter)",
                    "uid records (userid_t, AVL tree, add_uid / uidcmp) are modelled as names: valid because no record is ever renamed after the first master load (tie_uid_records_never_renamed)",
-                   "shadows, hidden objects, 'Cannot clone from a clone', inherit chains (load_object restarts itself and so repeats its test) and valid_object are not modelled",
+                   "call_other / tell_room / filter on a file name, preload, connect, call_out and heart_beat have no model of their own: they are compared with the plain load / clone / op "
+                   "of the same actor (move_object(file name), map with a string object are not exercised)",
+                   "inherit: ONE inheriting blueprint (/c20/u1/i inherits /c20/u2/a, depth 1); an unloaded inheriting blueprint is not cloned (harness answers nobj); "
+                   "num_objects_this_thread / MaxInheritDepth are not modelled",
+                   "shadows, hidden objects, 'Cannot clone from a clone', a cloner destructed while its blueprint loads are not modelled",
                    "load_object leaves a never-created object in the object table when valid_object/creator_file raise (C08 territory); "
-                   "the model mirrors it (`half`), only its uid is repaired by the second fix: commit"]
+                   "the model mirrors it (`half`; the harness cannot destruct such an object), only its uid is repaired by the second fix: commit"]
 
     def gen_extra(self, ctx, bdir):
         # AUTO_SETEUID is recorded as a constant; the model has no rule for it because the source has none.
